@@ -44,13 +44,20 @@ TRUSTED = ["harness/c03.py + driver JSON glue (lean/DFV/Drv/C03.lean)",
            "sqrt / arccos / complex argument are parameters of the model (Env.sq, Env.acos, Env.arg); the harness applies the "
            "float functions to exact model outputs (route iii)"]
 ASSUMPTIONS = ["exact-regime inputs: every binary64 operation on the code path is exact (tracked by a static bit budget <= 50 bits), "
-               "so equality is demanded", "IEEE special values (division by zero, 0**-1, angle of a zero vector) are outside the model; "
-               "generators avoid them, angle cells with a zero vector are only required to be nan",
+               "so equality is demanded", "IEEE special values (division by zero, 0**-1, signed zeros, angle of a zero vector or of "
+               "(anti)parallel vectors rounding above 1) are outside the model; generators avoid them or the comparator only "
+               "requires non-finite on both sides",
                "non-integer exponents, arccos/phase of complex values, labels clashing with Field attribute names, "
-               "ndarray @/&/<< Field are outside the model and not generated"]
+               "ndarray @/&/<< Field are outside the model and not generated",
+               "side condition LiftOk of the cell-wise theorems: an array-like directly under << / .angle() is not mesh-shaped "
+               "(Field(mesh, value=array of shape mesh.n) reads it as per-cell scalars); such cases are still compared model-vs-code, "
+               "only the per-cell oracle is skipped (tag mesh-shaped-operand-under-shl/angle)"]
 UNPROVED = ["eval_pure (operand immutability) is a runtime fact: the functional model has it by construction; the code is checked by "
-            "snapshots around every evaluation step", "comm_meta at full strength is false of the code (known finding D10); "
-            "comm_meta_partial states the provable part"]
+            "snapshots around every evaluation step", "comm_meta at full strength is false of the code (known finding D10, theorem "
+            "comm_meta_fails); comm_meta_partial states the provable part",
+            "a+b vs b+a for two one-component fields with different explicit labels (finding D51) and acceptance asymmetry between "
+            "Field∘ndarray (_apply_operator) and ndarray∘Field (__array_ufunc__) (finding D52) are violations of the a∘b = b∘a clause "
+            "observed on the code; the model follows the code"]
 BUDGET = {"quick": 85, "thorough": 900}
 
 LABELS = ["a", "b", "c", "p", "q", "mx", "my", "mz", "ft_x", "ft_y", "s1", "t2", "x", "y", "z"]
@@ -875,13 +882,13 @@ class Evaluator:
             if lab and lv.nvdim > 1 and rv.nvdim > 1:
                 cls = "[D10]"
             elif lab and lv.nvdim == 1 and rv.nvdim == 1:
-                cls = "[D24]"
+                cls = "[D51]"
         if (err is None) != (err2 is None):
-            # input class of finding D25: exactly one operand is a NumPy object (ndarray / NumPy scalar), the other a Field:
+            # input class of finding D52: exactly one operand is a NumPy object (ndarray / NumPy scalar), the other a Field:
             # `ndarray ∘ field` dispatches to __array_ufunc__ (NumPy broadcasting, labels kept unconditionally) while
             # `field ∘ ndarray` goes through _apply_operator (shape test, labels dropped when the count changes), so one
             # order can be accepted and the other refused
-            cls = "[D25]" if (lf != rf) and is_np_obj(rv if lf else lv) else ""
+            cls = "[D52]" if (lf != rf) and is_np_obj(rv if lf else lv) else ""
             self.fail(f"COMM{cls}: a{sym}b {'raises ' + type(err).__name__ if err else 'is accepted'} but b{sym}a "
                       f"{'raises ' + type(err2).__name__ if err2 else 'is accepted'} "
                       f"(a: {describe(lv)}, b: {describe(rv)})")
@@ -891,7 +898,7 @@ class Evaluator:
         d = same_field(r, r2)
         if d:
             only_meta = set(d) <= {"vdims", "vdim_mapping"}
-            c = cls if (cls in ("[D10]", "[D24]") and only_meta) else ""
+            c = cls if (cls in ("[D10]", "[D51]") and only_meta) else ""
             self.fail(f"COMM{c}: a{sym}b and b{sym}a differ in {d}: a{sym}b has vdims {r.vdims} mapping {dict(r.vdim_mapping)} "
                       f"valid-count {int(np.sum(r.valid))}, b{sym}a has vdims {r2.vdims} mapping {dict(r2.vdim_mapping)} "
                       f"valid-count {int(np.sum(r2.valid))} (a: {describe(lv)}, b: {describe(rv)})")
@@ -1309,10 +1316,10 @@ def known(case, text):
     """open known findings, by input class (the class tag is computed from the operands of the failing step)"""
     if text.startswith("COMM[D10]"):
         return "D10"   # + or * between two fields with nvdim>1 whose labels or mappings differ; only labels/mapping differ
-    if text.startswith("COMM[D25]"):
-        return "D25"   # Field and NumPy object under + or *: one order is accepted, the other raises
-    if text.startswith("COMM[D24]"):
-        return "D24"   # two one-component fields with different (explicit) labels: labels of the left operand; only labels/mapping differ
+    if text.startswith("COMM[D52]"):
+        return "D52"   # Field and NumPy object under + or *: one order is accepted, the other raises
+    if text.startswith("COMM[D51]"):
+        return "D51"   # two one-component fields with different (explicit) labels: labels of the left operand; only labels/mapping differ
     return None
 
 
